@@ -96,6 +96,11 @@ func newObjectTemplate(class string) *corev1alpha1.ObjectTemplate {
 		t.Spec.Sources = []corev1alpha1.ObjectTemplateSource{srcB, srcA}
 	case "envHosted":
 		t.Spec.Template = tmplOK + tmplEnvLine
+	case "clusterSrc":
+		// the required source is an object of a CLUSTER-SCOPED kind (no namespace given): outside a namespaced template's reach
+		t.Spec.Sources[0].APIVersion = "example.verif/v1"
+		t.Spec.Sources[0].Kind = "ClusterThing"
+		t.Spec.Sources[0].Items = []corev1alpha1.ObjectTemplateSourceItem{{Key: ".spec.a", Destination: ".a"}}
 	case "secretSrc":
 		// the required source is a Secret: a kind the template's own target watch does not cover
 		t.Spec.Sources[0].Kind = "Secret"
@@ -132,6 +137,9 @@ func hostedTemplate() *corev1alpha1.ObjectTemplate {
 }
 
 func srcAKey(class string) Key {
+	if class == "clusterSrc" {
+		return Key{"example.verif", "ClusterThing", "", "src-a"}
+	}
 	if class == "secretSrc" {
 		return Key{"", "Secret", NS, "src-a"}
 	}
@@ -142,6 +150,11 @@ func srcAKey(class string) Key {
 }
 
 func srcAWith(class, val string) *unstructured.Unstructured {
+	if class == "clusterSrc" {
+		u := Obj(gvkClusterThing, "", "src-a")
+		u.Object["spec"] = map[string]any{"size": int64(1), "a": val}
+		return u
+	}
 	if class == "widgetSrc" {
 		u := Widget("src-a", 1)
 		u.SetNamespace(NS)
@@ -219,7 +232,8 @@ func (tw *tmWorld) runPass(k Key) {
 	delete(tw.timers, k)
 	// snapshot of every object the pass may touch, to feed its own writes back as triggers
 	keys := []Key{KCM("src-a"), KCM("src-b"), KCM("out"), {"", "ConfigMap", "other", "src-a"}, {"", "ConfigMap", "other", "out"},
-		{"", "Secret", NS, "src-a"}, {"", "Secret", NS, "src-z"}, KCM("out0"), {"example.verif", "Widget", NS, "src-a"}, KOutH}
+		{"", "Secret", NS, "src-a"}, {"", "Secret", NS, "src-z"}, KCM("out0"), {"example.verif", "Widget", NS, "src-a"}, KOutH,
+		{"example.verif", "ClusterThing", "", "src-a"}}
 	before := map[Key]map[string]any{}
 	for _, x := range keys {
 		before[x] = w.Store.Snapshot(x)
@@ -281,7 +295,7 @@ func cmWith(name, key, val string) *unstructured.Unstructured {
 
 func init() {
 	extraDrivers["template-walk"] = func(w *World, _ *flag.FlagSet, a driverArgs) int {
-		classes := []string{"ok", "ok", "ok2", "optionalFirst", "bad", "targetOtherNS", "sourceOtherNS", "secretSrc", "secretSrc", "widgetSrc", "widgetSrc", "envHosted", "envHosted"}
+		classes := []string{"ok", "ok", "ok2", "optionalFirst", "bad", "targetOtherNS", "sourceOtherNS", "secretSrc", "secretSrc", "widgetSrc", "widgetSrc", "envHosted", "envHosted", "clusterSrc"}
 		for i := 0; i < a.n; i++ {
 			if i%a.shards != a.shard {
 				continue
@@ -336,6 +350,8 @@ func init() {
 							w.EnvMutate("EnvEdit", k, map[string]any{"tag": v}, func(m map[string]any) {
 								if class == "widgetSrc" {
 									m["status"] = map[string]any{"a": v} // status only: the generation does not move
+								} else if class == "clusterSrc" {
+									m["spec"] = map[string]any{"size": int64(1), "a": v}
 								} else {
 									m["data"] = map[string]any{"a": v}
 								}
